@@ -243,11 +243,20 @@ def run(p, led, tier):
     # ---------------- R2 victim
     # the victim selector by role: the Watchdog method (other than check/execute) that receives the DeadlockInfo
     sel = None
+    cands_ = []
     for m in wdc.methods.values():
         if m.name in ("check", "execute", "__init__"):
             continue
         if any(a.annotation is not None and "DeadlockInfo" in src(a.annotation) for a in m.node.args.args) and any(is_self_attr(x, "deadlock_strategy") or "deadlock_strategy" in src(x) for x in ast.walk(m.node) if isinstance(x, ast.Attribute)):
-            sel = m
+            cands_.append(m)
+    if len(cands_) > 1:
+        # several methods look at the deadlock and the strategy (a describer, a logger …): the selector is the one that is
+        # given the controller to look the operations up in, and is not handed the victim
+        narrowed = [m for m in cands_ if any(a.annotation is not None and ctrl.name in src(a.annotation) for a in m.node.args.args)
+                    and not any(a.annotation is not None and "OperationContext" in src(a.annotation) for a in m.node.args.args)]
+        cands_ = narrowed or cands_
+    if len(cands_) == 1:
+        sel = cands_[0]
     if sel is None:
         cands = [m for m in wdc.methods.values() if m.name not in ("check", "execute", "__init__") and any(is_self_attr(x, "deadlock_strategy") for x in ast.walk(m.node))]
         sel = cands[0] if len(cands) == 1 else None
